@@ -1534,6 +1534,21 @@ func (x *Exec) sliceOp(st *State, fr *Frame, ins *ssa.Slice) {
 		fr.env[ins] = TV{T: app("mkseq", seqArr(tv.T), hi), Ty: ins.Type()}
 		return
 	}
+	// s[lo:hi] of a non-byte slice read as a value: a sequence of hi-lo elements, element j being s[lo+j].
+	// (Writes through the sub-slice into the shared backing array are not modelled: IndexAddr stores go through
+	// SliceRef cells, which this value does not carry.)
+	if st2, ok := ins.Type().Underlying().(*types.Slice); ok {
+		if hi == "" {
+			hi = seqLen(tv.T)
+		}
+		x.boundsCheck(st, fr, hi, app("+", seqLen(tv.T), "1"), ins.Pos())
+		x.boundsCheck(st, fr, lo, app("+", hi, "1"), ins.Pos())
+		es := x.enc.Sort(st2.Elem())
+		sub := x.enc.FreshConst("subseq", fmt.Sprintf("(Array Int %s)", es))
+		st.Assume(fmt.Sprintf("(forall ((j Int)) (! (= (select %s j) (select %s (+ j %s))) :pattern ((select %s j))))", sub, seqArr(tv.T), lo, sub))
+		fr.env[ins] = TV{T: app("mkseq", sub, app("-", hi, lo)), Ty: ins.Type()}
+		return
+	}
 	x.fail("general slicing of non-byte slices")
 }
 
